@@ -1012,9 +1012,10 @@ var mkrsupWeights = []struct {
 }
 
 // mkrsupPlainPct: how often (percent) a bank send / gov deposit of a denom is generated while a plain
-// (non-marker) account sits at that denom's marker address; the real send restriction then fails in
-// validateSendDenom (send_restrictions.go:101, keeper.go:149 "is not a marker account").
-const mkrsupPlainPct = 70
+// (non-marker) account sits at that denom's marker address. Before the fix ed45788f3 the send
+// restriction failed there ("is not a marker account"); now such sends behave as for a denom
+// without a marker, so they are generated freely.
+const mkrsupPlainPct = 100
 
 var mkrsupNeeds = map[string]string{"mint": "mint", "burn": "burn", "withdraw": "withdraw", "transfer": "transfer", "delete": "delete"}
 
